@@ -16,6 +16,9 @@ import math
 from mc.ref import measures as M
 
 PLAIN = ('cosine', 'corr', 'rho-a')
+# measures for which the ceiling routines pool "mean of the per-RDM tie-averaged ranks"; optimality is
+# not claimed for them, only the structure (leave-one-group-out, pooled RDM scores the upper bound)
+RANK_POOLED = ('spearman', 'kendall', 'tau-b', 'tau-a')
 # a pooled vector whose norm (cosine) / centred norm (corr) is below this, relative to the unit
 # vectors that were averaged, is treated as "direction undefined"
 EPS_DIRECTION = 1e-6
@@ -50,8 +53,10 @@ def unit_form(method, v):
         if n <= 1e-14 * max(1.0, _norm(v)):
             return None
         return [x / n for x in c]
-    if method == 'rho-a':
+    if method == 'rho-a' or method in RANK_POOLED:
         return M.avg_ranks(v)
+    if method == 'euclid':
+        return v
     raise ValueError(method)
 
 
@@ -64,8 +69,10 @@ def data_defined(method, v):
         return any(x != 0 for x in v)
     if method in ('corr', 'corr_cov'):
         return unit_form('corr', v) is not None
-    if method == 'rho-a':
-        return True          # a constant vector has rho-a 0 with everything: defined
+    if method in ('rho-a', 'tau-a', 'euclid'):
+        return True          # a constant vector has rho-a / tau-a 0 with everything: defined
+    if method in ('spearman', 'kendall', 'tau-b'):
+        return any(x != v[0] for x in v)
     raise ValueError(method)
 
 
